@@ -60,15 +60,17 @@ func (c *Consistent) hash(key string) int64 {
 // pick get a  node
 func (c *Consistent) pick(sessions *sync.Map, key string) getty.Session {
 	hashKey := c.hash(key)
+	// the ring is replaced by refreshHashCircle while other goroutines pick: read it under the lock
+	c.RLock()
 	index := sort.Search(len(c.sortedHashNodes), func(i int) bool {
 		return c.sortedHashNodes[i] >= hashKey
 	})
 
 	if index == len(c.sortedHashNodes) {
+		c.RUnlock()
 		return RandomLoadBalance(sessions, key)
 	}
 
-	c.RLock()
 	session, ok := c.hashCircle[c.sortedHashNodes[index]]
 	if !ok {
 		c.RUnlock()
@@ -109,8 +111,10 @@ func (c *Consistent) refreshHashCircle(sessions *sync.Map) {
 		return sortedHashNodes[i] < sortedHashNodes[j]
 	})
 
+	c.Lock()
 	c.sortedHashNodes = sortedHashNodes
 	c.hashCircle = hashCircle
+	c.Unlock()
 }
 
 func (c *Consistent) firstKey() getty.Session {
@@ -154,10 +158,6 @@ func newConsistenceInstance(sessions *sync.Map) *Consistent {
 }
 
 func ConsistentHashLoadBalance(sessions *sync.Map, xid string) getty.Session {
-	if consistentInstance == nil {
-		newConsistenceInstance(sessions)
-	}
-
-	// pick a node
-	return consistentInstance.pick(sessions, xid)
+	// pick a node (the instance is created once; sync.Once also publishes it to every goroutine)
+	return newConsistenceInstance(sessions).pick(sessions, xid)
 }
